@@ -187,7 +187,7 @@ func c11Server(run *Run, dir string) int {
 				nreq = 2
 			}
 			for k := 0; k < nreq; k++ {
-				p := &reqPlan{T0: k * r.Pick([]int{20, 60, 120}), RecvH: r.Pick([]int{0, 0, 60, 110}), RecvB: r.Pick([]int{0, 0, 60, 110}), Up: r.Pick([]int{60, 120, 200, 260}), Gap: r.Pick([]int{0, 0, 70})}
+				p := &reqPlan{T0: k * r.Pick([]int{20, 60, 120}), RecvH: r.Pick([]int{0, 0, 100, 140}), RecvB: r.Pick([]int{0, 0, 100, 140}), Up: r.Pick([]int{60, 120, 200, 260}), Gap: r.Pick([]int{0, 0, 100})}
 				if r.Pct(10) {
 					p.Up = 700 // does not fit into the drain time
 				}
@@ -196,33 +196,41 @@ func c11Server(run *Run, dir string) int {
 				}
 				sc.Reqs = append(sc.Reqs, p)
 			}
-			// signal offset: sweep the lifetime of the first request, sometimes after everything is done
+			// signal offset: sweep the lifetime of the first request; the signal is aimed at the MIDDLE of a phase (each
+			// phase lasts >= 100 ms) so that it stays clear of the phase boundaries, where either outcome is legitimate
 			p := sc.Reqs[0]
+			mid := func(lo, hi int) int { return lo + (hi-lo)/2 + r.Intn((hi-lo)/4+1) - (hi-lo)/8 }
 			switch i % 6 {
 			case 0: // headers sent
 				if p.RecvH == 0 {
-					p.RecvH = r.Pick([]int{70, 120})
+					p.RecvH = r.Pick([]int{100, 140})
 				}
-				sc.Signal = 20 + r.Intn(p.RecvH-30)
+				sc.Signal = mid(0, p.RecvH)
 			case 1: // body half sent
 				if p.RecvB == 0 {
-					p.RecvB = r.Pick([]int{70, 120})
+					p.RecvB = r.Pick([]int{100, 140})
 				}
-				sc.Signal = p.RecvH + 20 + r.Intn(p.RecvB-30)
+				sc.Signal = mid(p.RecvH, p.RecvH+p.RecvB)
 			case 2: // waiting for the upstream
-				sc.Signal = p.RecvH + p.RecvB + 15 + r.Intn(max(p.Up-30, 1))
-			case 3: // response half written by the upstream
-				if p.Gap == 0 && len(sc.Reqs) == 1 {
-					p.Gap = 70
+				if p.Up < 120 {
+					p.Up = 120
 				}
-				sc.Signal = p.RecvH + p.RecvB + p.Up + 15 + r.Intn(max(p.Gap-30, 1))
+				sc.Signal = mid(p.RecvH+p.RecvB, p.RecvH+p.RecvB+min(p.Up, 260))
+			case 3: // response half written by the upstream
+				if len(sc.Reqs) == 1 {
+					p.Gap = 110
+					sc.Signal = mid(p.RecvH+p.RecvB+p.Up, p.RecvH+p.RecvB+p.Up+p.Gap)
+				} else {
+					sc.Signal = mid(p.RecvH+p.RecvB, p.RecvH+p.RecvB+p.Up)
+				}
 			case 4: // nothing in flight: idle keep-alive connection
-				sc.Signal = p.RecvH + p.RecvB + p.Up + p.Gap + 80 + r.Intn(60)
+				sc.Signal = p.RecvH + p.RecvB + p.Up + p.Gap + 100 + r.Intn(60)
 				if len(sc.Reqs) > 1 {
 					sc.Reqs = sc.Reqs[:1]
 				}
 				if p.Up > 300 {
 					p.Up = 200
+					sc.Signal = p.RecvH + p.RecvB + p.Up + p.Gap + 100 + r.Intn(60)
 				}
 				sc.Fresh = false
 			default:
